@@ -258,6 +258,9 @@ func newMachine(t *rapid.T) *machine {
 // ---- key model ----
 
 func (m *machine) addPriv(k *secec.PrivateKey, d *big.Int) {
+	if msg := lib.FirstUsePriv(m.t, k, d, "first-use"); msg != "" {
+		m.fatalf("%s", msg)
+	}
 	q := ref.BaseMul(d)
 	r, s, id, _ := ref.RFC6979Sign(d, fixedDigest)
 	if ls, neg := ref.LowS(s); neg {
